@@ -217,6 +217,14 @@ def run_c06(tier):
     t, m = line_traces(Cfg("other salt", ps4=8, ps6=8), sub, via="io")
     traces += t
     meta += m
+    # very long lines (one-line dumps): an address lying across a 64 KiB / 8 KiB boundary is still one token
+    long_lines = []
+    for boundary in (65536, 8192, 131072):
+        for tok, off in (("123.45.67.89", 6), ("2001:db8:85a3::8a2e:370:7334", 11), ("10.20.30.40", 3)):
+            long_lines.append(" " * (boundary - off) + tok + " end " + "198.51.100.7")
+    t, m = line_traces(Cfg("longline"), long_lines[: 9 if thorough else 2], per_trace=1, via="io")
+    traces += t
+    meta += m
     # every bit preserved (image = original): the replacement must still be the canonical spelling
     t, m = line_traces(Cfg("allbits", ps4=32, ps6=128), EXTRA_LINES + ["a 010.001.002.007 b", "10.1.2.07/24", "2001:0DB8:0000:0000:0000:0000:0000:00AB", "FE80::1 x", "::FFFF:1.2.3.4"])
     traces += t
